@@ -6,14 +6,15 @@ ID = "C42"
 EX = "breezy.export"
 FUNCTIONS = [EX + ":_export_iter_entries"]
 STUBS = ["tree = stub: iter_entries_by_dir yields (path, entry) for the root and a few entries with SYMBOLIC paths; "
-         "is_special_path / has_filename are symbolic predicates per entry"]
+         "is_special_path answers by NAME for whatever path it is asked about (paths starting with the letter 's' stand for "
+         "paths starting with the control-directory prefix), has_filename is a symbolic predicate per entry"]
 ASSUMPTIONS = ["tree paths are '/'-separated, non-empty, without leading/trailing '/' and without empty components",
                "reference: with a sub-directory S, an entry is exported iff it lies strictly inside S (path = S + '/' + rest, "
                "exported as rest) or it is the file S itself (exported under its own name); without S every entry is "
                "exported under its tree path; special (.bzr*) and filtered-out entries are never exported"]
 OUTSIDE = ["the archive writers (tar / zip / directory: I/O, zlib) and the real revision trees", "more entries than the bound"]
 
-ALPHA = "ab/"
+ALPHA = "as/"          # 'a' an ordinary letter, 's' the stand-in for the control-directory prefix, '/' the separator
 
 
 def _valid_path(cx, p):
@@ -53,7 +54,8 @@ class _Tree:
         raise AssertionError("tree asked about a path that is not one of its entries")
 
     def is_special_path(self, path):
-        return self.special[self._idx(path)]
+        # like the real trees, decided by the NAME that is asked about (control-directory prefix), whatever path it is
+        return self.special(path)
 
     def has_filename(self, path):
         return self.present[self._idx(path)]
@@ -72,7 +74,10 @@ def ob_entries(cx):
         kind = cx.pick("kind%d" % i, ["file", "directory"])
         base = p.rsplit("/", 1)[-1]
         items.append((p, _Entry(kind, base)))
-    special = [bool(cx.choose("special%d" % i, 0, 1)) for i in range(n)]
+    def is_special(path):
+        """stand-in for 'the path starts with the control directory prefix' (.bzr / .git): here the letter 's'"""
+        return len(path) > 0 and cx.truth(path[0] == "s")
+    special = [is_special(p) for p, _e in items]
     present = [bool(cx.choose("present%d" % i, 0, 1)) for i in range(n)]
     sub_kind = cx.pick("subdir_kind", ["none", "empty", "path", "path/"])
     subdir = None
@@ -85,7 +90,7 @@ def ob_entries(cx):
             cx.assume(False)
         subdir = sub + "/" if sub_kind == "path/" else sub
     skip_special = bool(cx.choose("skip_special", 0, 1))
-    got = list(E._export_iter_entries(_Tree(items, special, present), subdir, skip_special=skip_special))
+    got = list(E._export_iter_entries(_Tree(items, is_special, present), subdir, skip_special=skip_special))
     want = []
     for i, (p, e) in enumerate(items):
         if skip_special and special[i]:
